@@ -18,18 +18,26 @@ def run(ctx):
         "gqlparser (parse + validate), SHA-256 and mapstructure are uninterpreted functions of their input in the theorems; the driver instantiates them with the results the real libraries give on the generated texts",
         "the response bytes are a deterministic function of the model's Outcome (transport, document, effective params / failure class): tied by the fresh-server oracle (status, all headers, body compared byte for byte), not proved; resolvers of the probe schema are deterministic echoes",
         "concurrent executions: the theorems hold for every interleaving of get/run/put events with the cache operations of one request taken as one step (cache methods are individually atomic and lawful); the Go memory model is not modelled - data races are only observed with -race in the thorough tier",
+        "the transports' configured ResponseHeaders maps are modelled as a heap of map objects and mergeHeaders as a program over it (Model/RespHeaders; go/ast translation of its body into Gen/RespHeaders.lean is trusted, an unknown statement shape fails the extractor); determineResponseContentType is an uninterpreted function of (configured map, Accept) in the theorems; the configured maps' values ([]string) are treated as immutable; tied by the fresh-server oracle over 9 header configurations (nil / empty / without and with a Content-Type / one map object shared by all transports / different per transport) and by comparing the configured maps with a pristine copy after every request",
         "websocket / SSE / multipart transports are not exercised by this check (they never touch the pool; covered by C11/C12/C10)",
     ]
     if getattr(ctx, "replay", None):
         return replay(ctx)
-    ok_extract = ctx.extract("PoolReset")
+    ok_extract = bool(ctx.extract("PoolReset")) and bool(ctx.extract("RespHeaders"))
     proved = bool(ok_extract) and ctx.prove(props=PROPS)
     if ok_extract and not proved:
         ctx.cov["proof_failure"] = ctx.proof_failure
 
     rc, so, se = ctx.harness("c07", ["-tier", ctx.tier, "-seed", ctx.seed])
+    crashed = None
     if rc != 0:
-        raise RuntimeError("harness failed: " + se[-3000:])
+        # requests in flight beside each other that write shared state without synchronisation kill the process
+        # (the Go runtime's map-access check cannot be recovered); everything before the concurrent phase was flushed
+        if "concurrent map" in se and "\nS\t" in "\n" + so:
+            crashed = se[:se.find("goroutine ", se.find("concurrent map") + 1) + 4000] if "goroutine " in se else se[-4000:]
+            so = so[:so.rfind("\n") + 1]
+        else:
+            raise RuntimeError("harness failed: " + se[-3000:])
     rows = [l.split("\t") for l in so.split("\n") if l]
     # corpus: minimised histories of past failures, each in a new process (responses vs fresh server only)
     corpus_rows = []
@@ -65,7 +73,7 @@ def run(ctx):
 
     # ---------------------------------------------------------------- model side
     model = None
-    if ok_extract and getattr(ctx, "driver_ok", False):
+    if ok_extract and getattr(ctx, "driver_ok", False) and not crashed:   # (a crashed harness never printed its definitions)
         lines = list(defs)
         cur = None
         for r in rows:
@@ -78,13 +86,14 @@ def run(ctx):
                 lines.append("newserver")
             lines.append("req %s %s %s %s" % (r[2], r[5], r[6], r[8]))
         lines.append("witness")
+        lines.append("hdrwitness")
         outs = ctx.driver("c07", lines)
-        witness = outs[-1]
+        witness, hdr_witness = outs[-2], outs[-1]
         model = [o for l, o in zip(lines, outs) if l.startswith("req ")]
         if any(o != "ok" for l, o in zip(lines, outs) if l.startswith(("def ", "pq ", "newserver", "poolgc"))):
             raise RuntimeError("driver rejected a definition line")
     else:
-        witness = None
+        witness = hdr_witness = None
 
     # ---------------------------------------------------------------- decide
     branch = Counter()
@@ -125,7 +134,7 @@ def run(ctx):
         if extra != "-":
             spec_fail += 1
             what = "; ".join("%s: %s" % (part.partition(":")[0], unhex(part.partition(":")[2]).replace("\x00", " | ")) for part in extra.split(" "))
-            failing.append({"kind": "shared-state-corrupted", "shape": {"class": "cache", "transport": enc.split(" ")[0]}, "where": where, "rows": rows,
+            failing.append({"kind": "shared-state-corrupted", "shape": {"class": "config" if "config-mutated:" in extra else "cache", "transport": enc.split(" ")[0]}, "where": where, "rows": rows,
                             "mode": mode, "cfg": cfg, "request": reqtxt, "what": what})
         # (3) correspondence with the model (sequential histories)
         if mode == "seq" and model is not None:
@@ -185,9 +194,16 @@ def run(ctx):
         v.setdefault("replay", "serve the requests of `history` in order on one handler.Server (query cache/APQ cache: %s); the last one is answered `response`, a freshly constructed server answers it with `fresh_server_response` (./bin/check C07 --replay <this file>)" % cfg)
         return v
 
+    if crashed:
+        ctx.cov["harness_crash"] = crashed[:2000]
+        if not failing:
+            ctx.violation({"kind": "race", "shape": {"race": True, "class": "concurrent-map-access"}, "detail": crashed,
+                           "replay": "go run ./harness/c07 -seed %d: requests served concurrently by one handler.Server access a shared map without synchronisation (Go runtime: fatal error, concurrent map access) - state shared between requests in flight beside each other; see `detail` for the goroutine that writes" % ctx.seed})
     if not proved and ok_extract:
         for v in failing + suspicious:
             v["unproved"] = ctx.proof_failure
+            if hdr_witness not in ("none", None):
+                v["model_header_witness"] = hdr_witness
     failing.sort(key=lambda v: v["kind"] != "response-depends-on-history")   # stable: wrong responses first
     for v in failing[:3]:
         ctx.violation(finalize(v))
@@ -196,16 +212,18 @@ def run(ctx):
         for v in corr or suspicious[:1]:
             ctx.violation(finalize(v), no_failing_input=True)
         if ok_extract and not proved:
-            ctx.violation({"kind": "proof", "failing": ctx.proof_failure, "model_witness": witness,
-                           "replay": "a theorem of Props/C07.lean no longer checks against the regenerated Gen/PoolReset.lean (model_witness: field whose reset the model found missing); no request history with a response different from a fresh server's was found"},
+            ctx.violation({"kind": "proof", "failing": ctx.proof_failure, "model_witness": witness, "model_header_witness": hdr_witness,
+                           "replay": "a theorem of Props/C07.lean no longer checks against the regenerated Gen/PoolReset.lean / Gen/RespHeaders.lean (model_witness: field whose reset the model found missing; model_header_witness: configured ResponseHeaders and pair of Accept headers on which the regenerated mergeHeaders program makes the second answer depend on the first); no request history with a response different from a fresh server's was found"},
                           no_failing_input=True)
         elif proved and witness not in ("none", None):
             ctx.violation({"kind": "model-witness", "model_witness": witness}, no_failing_input=True)
+        elif proved and hdr_witness not in ("none", None):
+            ctx.violation({"kind": "model-witness", "model_header_witness": hdr_witness}, no_failing_input=True)
 
     ctx.cov.update({
         "evaluations": len(reqs),
         "distinct_nontrivial": len(nontriv),
-        "rule": "request histories against one handler.Server (GET, POST, urlencoded, application/graphql transports; query cache and APQ cache each map / LRU(1|2|1000) / none): directed histories (for every RawParams field 'set it, then omit / null it', after decode errors, null bodies, every APQ flow incl. eviction, same text under different operationName / variables, invalid documents twice, same text over every transport) + seeded random histories (structured bodies: optional members present/absent/null/mistyped, duplicate and case-variant keys, 20 query texts incl. invalid ones, malformed-body stream) + concurrent batches (8 goroutines). Every response (status, all headers, body) is compared with a freshly constructed server's answer to that request alone (pool emptied, no query cache). Non-trivial = distinct (request, outcome class, cache hits) that is not the first request of its history",
+        "rule": "request histories against one handler.Server (GET, POST, urlencoded, application/graphql transports; query cache and APQ cache each map / LRU(1|2|1000) / none; the transports' ResponseHeaders option in 9 configurations: nil, empty, CORS-only per transport / one shared map object, several keys shared, explicit Content-Type canonical / lower-case / graphql-response shared, different per transport): directed histories (for every RawParams field 'set it, then omit / null it', after decode errors, null bodies, every APQ flow incl. eviction, same text under different operationName / variables, invalid documents twice, same text over every transport; for every header configuration a history over all transports whose Accept headers negotiate alternating media types, forwards and reversed, incl. parse/validation/decode errors whose status depends on the media type) + seeded random histories (structured bodies: optional members present/absent/null/mistyped, duplicate and case-variant keys, 20 query texts incl. invalid ones, malformed-body stream) + concurrent batches (8 goroutines). Every response (status, all headers, body) is compared with a freshly constructed server's answer to that request alone (same configuration newly built, pool emptied, no query cache); the configured header maps are compared with a pristine copy after every request. Non-trivial = distinct (request, outcome class, cache hits) that is not the first request of its history",
         "input_distribution": dict(branch),
         "histories": len(seqs),
         "sequential_requests": len(seq_reqs),
@@ -216,6 +234,8 @@ def run(ctx):
         "oracle_or_cache_failures": spec_fail,
         "traces_validated_against_impl": len(seq_reqs) if model is not None else 0,
         "model_witness_search": witness,
+        "model_header_witness_search": hdr_witness,
+        "header_configurations": dict(Counter(s[2].split("/")[2] if s[2].count("/") >= 2 else "none" for s in seqs.values())),
         "samples": [{"history": seqs[r[1]][3], "request": r[13], "implementation": r[9], "response": r[14]} for r in (reqs[1], reqs[len(reqs) // 3], reqs[len(reqs) // 2], reqs[-1])],
     })
 
